@@ -6,14 +6,15 @@ from vlib import prints, MachineryError
 from props import githist as gh
 
 C20_OPS = ["ModifyExpr", "RenameRule", "ChangeKind", "AddRule", "DeleteRule", "SwapRules", "AddFile", "DeleteFile",
-           "RenameFile", "RevertLast", "WhitespaceEdit"]
+           "RenameFile", "RevertLast", "WhitespaceEdit", "BreakFile", "MultiOp", "BaseAdvance", "MergeBase"]
 
 
 def gen_jobs(ctx):
     th = ctx.thorough
     wide = dict(npaths=3, kinds=["rec", "alr"], names=["n1", "n2"],
                 bodies=["v1", "m:n1", "m:n2", "A:n1", "S:n1", "A:n2", "m:n1+m:n2", "m:n2+A:n1", "S:n2+A:n1", "A:n2+S:n1"],
-                labs=["l1"], cmts=["none"], pads=[0, 1], maxrules=3, maxfork=5, commits=3 if not th else 4, baseadv=0, ops=C20_OPS)
+                labs=["l1"], cmts=["none"], pads=[0, 1], maxrules=3, maxfork=5, commits=3 if not th else 4, baseadv=1, merges=1,
+                ops=C20_OPS, pairops=["DeleteFile", "RenameFile", "BreakFile"])
     return [
         # (1) exhaustive: one provider name, recording and alerting, every reference kind, two files
         ("c20_gen_small.cfg", gh.cfg("EmitCase", npaths=2, kinds=["rec", "alr"], names=["n1"], bodies=["v1", "m:n1", "A:n1"],
@@ -25,6 +26,11 @@ def gen_jobs(ctx):
                                      labs=["l1"], maxrules=3, maxfork=3, commits=1,
                                      ops=["ChangeKind", "DeleteRule", "RenameRule", "SwapRules"]),
          300 if not th else 3000, dict(workers=2 if not th else 6)),
+        # (1c) exhaustive: the base branch inserts rules and is merged; files left unparsable (removals suppressed: binding only)
+        ("c20_gen_merge.cfg", gh.cfg("EmitCase", npaths=1 if not th else 2, kinds=["rec"], names=["n1", "n2"], bodies=["v1", "m:n1"], labs=["l1"],
+                                      maxrules=2, maxfork=2 if not th else 3, commits=2, baseadv=1, merges=1,
+                                      ops=["DeleteRule", "DeleteFile", "RenameFile", "BreakFile", "BaseAdvance", "MergeBase"]),
+         200 if not th else 3000, dict(workers=2 if not th else 6)),
         # (2) simulation: three files, duplicate providers, two-selector expressions, replacements
         ("c20_sim_wide.cfg", gh.cfg("EmitCase", **wide), 500 if not th else 9000,
          dict(simulate=6 if not th else 40, depth=12 if not th else 14, workers=1)),
@@ -42,6 +48,9 @@ def mc_jobs(ctx, mode):
                                  maxrules=2, maxfork=3 if not th else 4, commits=2,
                                  ops=["DeleteRule", "DeleteFile", "RenameFile"])),
     ]
+    runs.append(("c20_mc_merge.cfg", dict(npaths=1 if not th else 2, kinds=["rec"], names=["n1", "n2"], bodies=["v1", "m:n1"], labs=["l1"], maxrules=2,
+                                          maxfork=2 if not th else 3, commits=2, baseadv=1, merges=1,
+                                          ops=["DeleteRule", "DeleteFile", "RenameFile", "BreakFile", "BaseAdvance", "MergeBase"])))
     return [(name, gh.cfg("Inv_C20", view=True, mode=mode, **kw), 4 if not th else 6) for name, kw in runs]
 
 
@@ -51,7 +60,7 @@ def model_and_cases(ctx, mode):
     jobs = [(lambda j=j: gh.gen(ctx, j[0], j[1], **j[3])) for j in gj]
     jobs += [(lambda j=j: ctx.tlc("GitHistory", j[0], files={j[0]: j[1]}, allow_violation=True, timeout=3000,
                                   workers=j[2], heap="4g")) for j in mj]
-    res = gh.run_parallel(jobs)
+    res = gh.run_parallel(jobs, width=len(jobs))
     parts, stats = [], []
     for j, (cs, r) in zip(gj, res[:len(gj)]):
         d = gh.dedupe(cs)
@@ -63,7 +72,9 @@ def model_and_cases(ctx, mode):
 
 
 def c20_sig(v):
-    return "C20:%s:kind=%s:ndoc=%d:nobs=%d" % (v["what"], v["kind"], v["ndoc"], v["nobs"])
+    return "C20:%s:kind=%s:ndoc=%d:nobs=%d:merged=%d:misaligned=%d:impl=%s" % (
+        v["what"], v["kind"], v["ndoc"], v["nobs"], int(v.get("merged", False)), int(v.get("stale", False)),
+        "same" if v.get("implsame") else "diff")
 
 
 def run(ctx, cases_override=None):
@@ -116,13 +127,15 @@ def run(ctx, cases_override=None):
         "distinct_nontrivial": with_warning,
         "rule": "distinct = fork tree + (name-status, content) of every commit; non-trivial = histories for which the documentation demands at least one warning",
         "histories_removing_a_rule": removing,
+        "histories_with_unparsable_head_file": sum(1 for x in nd if x[4] == 1),
+        "histories_with_merge_of_base": sum(1 for c in cases if any(o["op"] == "MergeBase" for o in c["log"])),
         "warnings_reported": sum(x[1] for x in nd), "warnings_documented": sum(x[2] for x in nd),
         "ops_histogram": {k: sum(1 for c in cases for o in c["log"] if o["op"] == k) for k in sorted({o["op"] for c in cases for o in c["log"]})},
         "gen": gstats, "trace_records": len(trace),
     }
     return vlib.conclude(ctx, viols, "model_checking", cov, [
         "one file-level operation per commit; renames are pure moves (validated against real git per commit)",
-        "HEAD files always parse; selectors name metrics plainly; alertname matchers are equalities; no symlinks",
+        "histories whose HEAD holds an unparsable file carry no verdict (binding only); after a merge of the base branch a removed rule may be located by its fork-point or its merge-base lines; selectors name metrics plainly; alertname matchers are equalities; no symlinks",
         "expressions are or-joined selectors over the reference alphabet (recording names, ALERTS{alertname=}, ALERTS_FOR_STATE{alertname=})",
         "dependants compared as sets of (name, path, line); the order of the details list is part of the binding only",
     ], drift=drift)
